@@ -415,4 +415,42 @@ def pyRunC := pyRunW bindNew
 /-- the Python path before the repair -/
 def pyRunCOld := pyRunW bindOld
 
+/-! ### earlier starts: what stays on the `PacketVar` objects
+
+A sync group may be started again (`SyncGroup.start` allocates anew), and devices may have run in other groups before.
+All that an earlier cycle leaves behind for the present one are the accessors cached on the objects. -/
+
+/-- the accessors on the objects after one cycle of `ops` under the layout `vars` (also when the cycle ended with an
+exception: the bindings made before it stay) -/
+def cachesAfter (vars : List Linked) (cs : CState) (ops : List Op) : List PvCache :=
+  match pyRunC vars cs ops with
+  | .ok cs' => cs'.caches
+  | .error (_, caches) => caches
+
+/-- Python `get` of the variables `is` in turn through the cached accessors (as `fast_update` of a fast group's devices
+reads them); stops at the first exception.  Values read so far (newest first), accessors afterwards. -/
+def readEach (vars : List Linked) (data : List UInt8) : List Nat → List PvCache → List Int → Option (List Int) × List PvCache
+  | [], caches, acc => (some acc.reverse, caches)
+  | i :: is, caches, acc =>
+    match getterStart bindNew vars caches i with
+    | .ok (l, s, caches') => readEach vars data is caches' (pyReadAt l.var.size data s :: acc)
+    | .error _ => (none, caches)
+
+/-- one earlier start: the layout of that time (same objects, other assignments), the process image and DeviceVars it
+began with, the statements that ran (`reads = true`: instead, Python read every variable once) -/
+structure Earlier where
+  vars : List Linked
+  st : PyState
+  ops : List Op
+  reads : Bool := false
+
+def Earlier.leaves (e : Earlier) (caches : List PvCache) : List PvCache :=
+  if e.reads then (readEach e.vars e.st.data (List.range e.vars.length) caches []).2
+  else cachesAfter e.vars ⟨e.st, caches⟩ e.ops
+
+/-- the accessors after a whole history of earlier starts -/
+def historyCaches (caches : List PvCache) : List Earlier → List PvCache
+  | [] => caches
+  | e :: es => historyCaches (e.leaves caches) es
+
 end Ebv.ProcVar
